@@ -70,6 +70,9 @@ CHECKS["C10"] = {
             "IGN:1 STR:2 HDY TTH UCH,10 EXP STR:*); per sequence: all combinations of 3 (length 4: 2) values per field, bit fields "
             "additionally over their full domain for ownership discovery; formats plain, names, JSON, numeric, "
             "JSON+value-name; every single-bit flip of the encoded data of 3 (2) uniform value combinations.  "
+            "Field selection (every sequence): getCount(any/master/slave[, name]), getName/getField(index) against the "
+            "definition list, and Message::decodeLastData of every single field by name and by message-wide index "
+            "(plain, names, JSON) against that field decoded alone.  "
             "Barrier family (both tiers, cheap structural oracles only): one bit field ; 1..2 full-byte fields ; 2 "
             "(thorough 3) bit fields over all 8 sub-byte and 22 full-byte types, master and slave part (518 144 "
             "sequences of length 4-5 in quick).  "
@@ -78,6 +81,7 @@ CHECKS["C10"] = {
         "a full-byte field owns whole bytes, a BIx:n field owns bits x..x+n-1 of one byte",
         "sequences whose definitions overlap (bit ranges of two bit fields sharing a byte intersect) keep oracles (1)-(4) but not the single-field encoding comparison",
         "for a sequence ending in a variable-length field getLength(part, n) must equal n when n bytes were written",
+        "ignored fields are never counted or addressed: counts per part/name, name and field by index and the decode of one field selected by name or by message-wide index (master part first; only judged when no slave field is defined before a master field) refer to exactly that field",
         "a full-byte field is a layout barrier: the fields behind it are laid out (length, encoding, decoding) exactly as if they stood alone, whatever precedes it",
         "a bit field directly following a bit field with the same first bit starts a new byte (BI0;BI0 and BI0;BI7;BI0 are two bytes, as the repository's test rows fix); it never shares the byte",
         "TTH (6 bits) may be read as a bit field that shares its byte or as a full-byte field; a sequence fails only if it is inconsistent under both readings",
@@ -123,12 +127,13 @@ CHECKS["C12"] = {
         "a pristine process has errno 0, only the built-in types and a default-formatted stream",
         "independent definition lines: distinct circuit/name and ID, templates not referring to each other; defaults (*) and condition lines are order dependent by design and left out",
         "time() is constant during the load-order observations",
+        "definitions with the same base type and divisor but different configured ranges are independent: each behaves (dump incl. min/max/step, encode, decode) as when it is the only definition loaded; a line that is refused on its own takes no part",
     ],
     "runs": [{
         "harness": "c12_history", "sources": ["engines/codec/c12_history.cpp"], "variant": "plain", "libset": "core",
         "quick": {"parts": 16, "deadline": 100,
-                  "bounds": "81 operations to fixpoint (5 760 states); stateless length<=2; 3! x 4! load orders"},
+                  "bounds": "81 operations to fixpoint (5 760 states); stateless length<=2; 3! x 4! load orders; 14 range/divisor lines in every ordered selection of <=3 (2 366)"},
         "thorough": {"parts": 16, "deadline": 800,
-                     "bounds": "87 operations to fixpoint; stateless length<=3; 4! x 6! load orders"},
+                     "bounds": "87 operations to fixpoint; stateless length<=3; 4! x 6! load orders; 14 range/divisor lines in every ordered selection of <=4"},
     }],
 }
